@@ -908,7 +908,7 @@ def op_commute(st, o):
         return "skipped"
     if not (ha.fm.nvdim == hb.fm.nvdim or 1 in (ha.fm.nvdim, hb.fm.nvdim)):
         return "skipped"
-    differ = ha.fm.nvdim == hb.fm.nvdim and ha.fm.nvdim > 1 and (ha.fm.vdims != hb.fm.vdims or ha.fm.mapping != hb.fm.mapping)
+    differ = ha.fm.nvdim == hb.fm.nvdim and (ha.fm.vdims != hb.fm.vdims or ha.fm.mapping != hb.fm.mapping)
     if differ and not o.get("finding"):
         # two vector operands with different labels/mapping: recorded finding
         # C03/commute/A.commute/different-labels,... (replayed from findings/C03)
@@ -1002,6 +1002,31 @@ def op_ainplace(st, o):
     st.stats.probe("inplace_ufunc")
     st.stats.oracle("H")
     return "inplace-ufunc"
+
+
+@op("A.resample")
+def op_aresample(st, o):
+    """A coarser copy of a field on the SAME region (the library hands the region object on):
+    a second mesh that differs from the operand's only in n, with cell counts that numpy
+    would broadcast. Everything about the result is adopted (C07's business); it serves as
+    an operand that must be refused together with its source."""
+    h = st.h[o["on"]]
+    if h.kind != "F":
+        return "skipped"
+    n = h.box.v.n
+    n2 = tuple(1 if o["ones"][k % len(o["ones"])] else n[k] for k in range(len(n)))
+    if n2 == tuple(n):
+        return "skipped"
+    res = sut(h.obj.resample, n2)
+    if res.raised:
+        st.stats.hit("observed/derive_raised:resample")
+        return "derive-raised"
+    obj = res.v
+    new_field(st, o["out"], obj, Box(adopt_mesh(obj.mesh)), {})
+    st.stats.probe("resampled_same_region")
+    if obj.mesh.region is h.obj.mesh.region:
+        st.stats.probe("resampled_shares_region_object")
+    return "resampled"
 
 
 @op("A.reject")
@@ -1284,7 +1309,22 @@ def op_dsel(st, o):
     valid, amb = _map_valid(mm, h.fm.valid, dm, outside, insert)
     got = np.asarray(obj.valid).astype(bool)
     if got.shape == valid.shape:
-        valid[amb] = got[amb]  # ambiguous cells (centre on a source face) are adopted
+        valid[amb] = got[amb]  # ambiguous cells (centre on a source face) are adopted ...
+        if t == "resample" and amb.any():
+            # ... unless the DATA tells which of the neighbouring source cells the library took:
+            # validity is transformed exactly as the data, so it must come from that same cell
+            import itertools
+
+            src_a, dst_a = np.asarray(h.obj.array), np.asarray(obj.array)
+            for idx in (tuple(int(i) for i in w) for w in np.argwhere(amb)):
+                j = mm.index_of(dm.centre_of(idx))
+                if j is None or dst_a.shape[:-1] != valid.shape:
+                    continue
+                cands = [c for c in itertools.product(*[[x for x in (jk - 1, jk, jk + 1) if 0 <= x < nk] for jk, nk in zip(j, mm.n)])
+                         if np.array_equal(src_a[c], dst_a[idx])]
+                if len(cands) == 1:
+                    valid[idx] = bool(h.fm.valid[cands[0]])
+                    st.stats.probe("tie_decided_by_data")
     nh = new_field(st, o["out"], obj, Box(dm), {"valid": valid, "nvdim": h.fm.nvdim})
     st.stats.oracle("value")
     return t
